@@ -72,3 +72,53 @@ def c02(tier, seed):
 
 
 CHECKS.update({"C02": c02})
+
+
+def c18(tier, seed):
+    return gcheck.run_property(
+        "C18", tier, seed, suites.c18_cases(tier, seed), "reference",
+        functions_encoded=["generated calls format_<X>_to_view / _to_formatter of both back-ends (formatter, options, locale argument)"],
+        bounds="the six documented formatters x every documented option combination (quick: 60 sampled) x 4 whitespace/order variants of the source x unrecognised values/arguments; formatter inside ranges, plurals, components, through foreign keys. Outside: equality with ICU4X output, formatter cache and threads.",
+        extra_assumptions=["documented defaults: number auto; currency short/USD; date medium; time short; list unit/wide",
+                           "fmt_<X>(locale, value, options) is uninterpreted: ICU4X output itself is not checked"])
+
+
+def _c08_extra(case, ns, path, hk, ref):
+    import engine_g
+    out = []
+    proj = case.project
+    try:
+        vars_, comps, counts = proj.required_args(ns, path)
+    except Exception:
+        return out
+    want = sorted({v.replace("-", "_") for v in vars_} | {c.replace("-", "_") for c in comps})
+    got = sorted(hk.get("fields", []))
+    if hk["kind"] == "lit":
+        got = []
+    if want != got:
+        out.append(engine_g.Finding("C08", "required_args_differ", case, key=list(path), detail={"required_by_source": want, "builder_fields": got}))
+        return out
+    bounds = hk.get("bounds", {})
+    for name, kinds in counts.items():
+        b = " ".join(bounds.get("__%s__" % name.replace("-", "_"), []))
+        if len(kinds) != 1:
+            continue
+        kind = next(iter(kinds))
+        if kind == "plural":
+            ok = "InterpolatePluralCount" in b
+        else:
+            ok = "InterpolateRangeCount<%s>" % kind in b
+        if not ok:
+            out.append(engine_g.Finding("C08", "count_bound_differs", case, key=list(path), detail={"field": name, "declared": kind, "bounds": b}))
+    return out
+
+
+def c08(tier, seed):
+    return gcheck.run_property(
+        "C08", tier, seed, suites.c08_cases(tier, seed), "reference",
+        functions_encoded=["generated builder structs (fields, generic bounds) and accessors of keys whose locales mix value kinds"],
+        bounds="3 locales, one key = any triple of kinds from string / interpolation / component / range / plural / number / foreign key renaming the count / foreign key fixing the count / null; 5 count types; plus 2 conflicting projects that must be rejected. Decided: rendered text for all locales and arguments (z3), builder field set == union of syntactic occurrences, count bound == declared type. Outside: that rustc accepts exactly that argument set (typed_builder).",
+        extra_key_check=_c08_extra)
+
+
+CHECKS.update({"C18": c18, "C08": c08})
